@@ -3,6 +3,7 @@ non-repo receivers."""
 import ast
 
 from . import terms as T
+from .values import VGen  # noqa: E402
 from .values import (
     V, VConst, VNum, VTens, VList, VTuple, VDict, VObj, VFunc, VClass, VExt, VModule, VBound,
     VSuper, VUnknown, VSlice, VRange, VIter, Instance, Unsupported, ShapeMismatch, num_term,
@@ -1004,6 +1005,17 @@ def call_builtin(it, f, args, kwargs, node):
         u = VUnknown("str", "str")
         u.not_none = True
         return u
+    if f in ("list", "tuple") and args and isinstance(args[0], VGen):
+        # exhaust the generator now; the collected values are the objects it yielded (not copies)
+        out = it.new_list([])
+
+        def collect(v):
+            out.obj.items.append(v) if out.obj.items is not None else None
+
+        it.run_generator(args[0], collect, node)
+        if f == "tuple" and out.obj.items is not None:
+            return VTuple(list(out.obj.items))
+        return out
     if f == "list":
         if not args:
             return it.new_list([])
